@@ -71,6 +71,7 @@ type c11Case struct {
 	reset      bool   // TCP reset instead of an orderly close
 	politeHost bool   // the host closes when it sees end of stream
 	buffers    bool   // the gateway is configured with socket send/receive buffer sizes (stage 10: host streaming, client not reading)
+	retry      bool   // legacy: while the tunnel is up, an RDG_IN_DATA request for the same identifier arrives again (a client or proxy retry) and is dropped by the client after the answer
 }
 
 func (c c11Case) String() string {
@@ -87,6 +88,9 @@ func (c c11Case) String() string {
 	bf := ""
 	if c.buffers {
 		bf = " gateway with sendbuf/receivebuf=65536"
+	}
+	if c.retry {
+		bf += " (a repeated RDG_IN_DATA request for the same identifier came in while the tunnel was up)"
 	}
 	return fmt.Sprintf("transport=%s point=%q ending=%q tcp=%s %s%s", c.transport, st, ca, k, h, bf)
 }
@@ -210,6 +214,16 @@ func runC11Case(gws *gwServer, cs c11Case, host *hostListener, bound time.Durati
 		time.Sleep(20 * time.Millisecond) // let the refused dial come back
 	} else {
 		time.Sleep(5 * time.Millisecond)
+	}
+	if cs.retry && cs.transport == "legacy" {
+		if c2, err := net.DialTimeout("tcp", gws.addr, 2*time.Second); err == nil {
+			c2.SetDeadline(time.Now().Add(500 * time.Millisecond))
+			c2.Write([]byte("RDG_IN_DATA /remoteDesktopGateway/ HTTP/1.1\r\nHost: " + gws.addr + "\r\nTransfer-Encoding: chunked\r\nRdg-Connection-Id: " + connID + "\r\n\r\n"))
+			buf := make([]byte, 512)
+			c2.Read(buf)
+			c2.Close()
+		}
+		time.Sleep(10 * time.Millisecond)
 	}
 	if cs.stage == 11 {
 		hc.c.Close()
@@ -448,6 +462,11 @@ func runC11(r *Run) {
 	for _, stage := range []int{0, 3, 6} {
 		for _, ca := range []string{"close", "order", "frame", "dropws"} {
 			cases = append(cases, c11Case{transport: "ws", stage: stage, cause: ca, buffers: true})
+		}
+	}
+	for _, stage := range []int{1, 3, 6, 9} {
+		for _, ca := range []string{"close", "dropin", "frame"} {
+			cases = append(cases, c11Case{transport: "legacy", stage: stage, cause: ca, retry: true, politeHost: stage == 9})
 		}
 	}
 	reps := r.N(1, 6)
